@@ -6,8 +6,9 @@
 set -u
 export GOFLAGS=-mod=mod GOPROXY=off GOSUMDB=off GOTOOLCHAIN=local
 ID="$1"; M="$2"; PKG="$3"; RUN="$4"; shift 4
-OUT=/tmp/mut/$ID.out
-WT=/tmp/mut/confirm.$ID.$M
+OUT=${OUTDIR:-/tmp/mut/$ID.out}
+STORE=${STORE_AS:-$M}
+WT=/tmp/mut/confirm.$ID.$STORE
 rm -rf "$WT"; git -C /repo worktree prune; git -C /repo worktree add -q --detach "$WT" HEAD || exit 2
 cleanup() { git -C /repo worktree remove --force "$WT" 2>/dev/null; rm -rf "$WT"; }
 trap cleanup EXIT
@@ -26,12 +27,12 @@ go test -count=1 $TOUCHED "$@" > /tmp/confirm.$$.c 2>&1; c=$?
 if [ $c -ne 0 ] && ! grep -E "^--- FAIL" /tmp/confirm.$$.c | grep -v "TestVectors " >/dev/null; then c=0; fi
 echo "demo-without=$a (want 0) demo-with=$b (want !=0) existing-tests-with=$c (want 0)"
 if [ $a -eq 0 ] && [ $b -ne 0 ] && [ $c -eq 0 ]; then
-  D=/verif/seeded/$ID-$M; mkdir -p "$D"
+  D=/verif/seeded/$ID-$STORE; mkdir -p "$D"; cp "$OUT/notes.md" "$D/agent_notes.md" 2>/dev/null
   git diff > "$D/patch.diff"; cp "$DEMO" "$D/$(basename $DEMO)"
-  python3 - "$D" "$ID" "$M" "$PKG" "$RUN" "$TOUCHED $*" <<'PY'
+  python3 - "$D" "$ID" "$STORE" "$PKG" "$RUN" "$TOUCHED $*" "$OUT" <<'PY'
 import json,sys,re,os
-d,i,m,pkg,run,tested=sys.argv[1:7]
-notes=open(f'/tmp/mut/{i}.out/notes.md').read() if os.path.exists(f'/tmp/mut/{i}.out/notes.md') else ''
+d,i,m,pkg,run,tested,out=sys.argv[1:8]
+notes=open(f'{out}/notes.md').read() if os.path.exists(f'{out}/notes.md') else ''
 json.dump({"property":i,"mutant":m,"origin":"independent sub-agent given only the property text and a scratch worktree",
  "demo":{"copy_into":pkg,"run":f"go test -count=1 -run '{run}' ./{pkg}"},
  "confirmed":{"demo_passes_without_change":True,"demo_fails_with_change":True,"existing_tests_pass_with_change":tested.split()},
